@@ -147,7 +147,7 @@ def replay(ctx, path):
 META = {
     "category": "proof",
     "technique": "Coq state-machine model (with the generated Brent root finder inside) + exact trace correspondence (incl. forced qubit orders); theorems on the sweep schedule, the run loop and the root finder (C19); property oracles on scripted and analytic norm streams",
-    "text": ("Proved for every N>=3, every increasing target-time list and EVERY norm/uniform/matrix-change oracle stream, by "
+    "text": ("Proved for every N>=3 (and separately for the two-site corner case N=2), every increasing target-time list and EVERY norm/uniform/matrix-change oracle stream, by "
              "induction over sweeps: the run either stops with one of three explicit errors (oracle exhausted, norm gap exactly 0 "
              "at the root-finder constructor, renormalised norm != 1) or keeps the invariant: current time inside the step in "
              "progress; a running root search has a valid Brent bracket inside the step and its pending abscissa as target "
